@@ -63,13 +63,17 @@ var wkinds = []wkind{
 	// C-for whose init clause binds a pool name
 	{Name: "cforVarA", Loop: true}, // 39 i = 0; for var a = v; i < 2; i++ { . }
 	{Name: "cforSetA", Loop: true}, // 40 i = 0; for a = v; i < 1; i++ { . }
+	// ONE call site executed twice in one activation, the callee's name re-bound in between;
+	// the loop body contains no other by-name call (the probes are inside the callees)
+	{Name: "rebindSet", Func: true}, // 41 func f() { READ O }; for i = 0; i < 2; i++ { f(); f = func() { . } }
+	{Name: "rebindVar", Func: true}, // 42 func f() { READ O }; for i = 0; i < 2; i++ { f(); var f = func() { . } }
 }
 
 // ---------- spine descriptor ----------
 
 type desc struct {
 	W       []int `json:"w"`       // construct kinds, outermost first
-	Payload []int `json:"payload"` // tokens: 0 a=v 1 var a=v 2 read a 3 b=v 4 var b=v 5 read b 6 func a() { }
+	Payload []int `json:"payload"` // tokens: 0 a=v 1 var a=v 2 read a 3 b=v 4 var b=v 5 read b 6 func a() { } 7 a, b = [v, w]
 	Exit    int   `json:"exit"`    // 0 fall through 1 break 2 continue 3 return 4 throw (caught by an outer try)
 	Pre     int   `json:"pre"`     // bit 0: a = 1 at top level, bit 1: b = 2 at top level
 }
@@ -125,7 +129,7 @@ func (d desc) relevant() [nDims]bool {
 			rel[7] = true
 		case w == 33:
 			rel[1], rel[8] = true, true
-		case w == 39 || w == 40:
+		case w >= 39 && w <= 42:
 			rel[1] = true
 		}
 		if wkinds[w].TryB && d.Exit >= 1 && d.Exit <= 3 {
@@ -271,6 +275,16 @@ func (b *builder) construct(kind, k int, slot []*stmt) []*stmt {
 		return []*stmt{assign("i"+sfx, cst(0)), {Op: opCFor, Name: "i" + sfx, N: 2, Init: &stmt{Op: opVar, Name: "a", E: cst(K + 1)}, Body: slot}}
 	case 40:
 		return []*stmt{assign("i"+sfx, cst(0)), {Op: opCFor, Name: "i" + sfx, N: 1, Init: assign("a", cst(K+1)), Body: slot}}
+	case 41, 42:
+		f := "f" + sfx
+		re := &stmt{Op: opAssign, Name: f, E: &expr{K: 'f', Fn: &fnlit{Body: slot}}}
+		if kind == 42 {
+			re.Op = opVar
+		}
+		return []*stmt{
+			{Op: opFunc, Name: f, Body: []*stmt{read("O" + sfx)}},
+			{Op: opCFor, Name: "i" + sfx, N: 2, Body: []*stmt{{Op: opCall, Name: f}, re}},
+		}
 	}
 	panic("bad construct kind")
 }
@@ -278,6 +292,11 @@ func (b *builder) construct(kind, k int, slot []*stmt) []*stmt {
 func payloadStmts(p []int) []*stmt {
 	var out []*stmt
 	for i, t := range p {
+		if t == 7 {
+			// unpacking assignment of both pool names from one list
+			out = append(out, &stmt{Op: opUnpack, N: int64(21 + 2*i)})
+			continue
+		}
 		if t == 6 {
 			// a named function declaration: an expression statement that binds a name
 			out = append(out, &stmt{Op: opFunc, Name: "a"})
@@ -360,11 +379,12 @@ func payloads(maxLen int) [][]int {
 	}
 	// token 6, `func a() { }`: alone, and combined with reads only (so that the
 	// block consists of expression statements only)
+	// token 7, `a, b = [v, w]`: alone and followed by a read of either name
 	if maxLen >= 1 {
-		out = append(out, []int{6})
+		out = append(out, []int{6}, []int{7})
 	}
 	if maxLen >= 2 {
-		out = append(out, []int{6, 2}, []int{6, 5}, []int{2, 6}, []int{5, 6})
+		out = append(out, []int{6, 2}, []int{6, 5}, []int{2, 6}, []int{5, 6}, []int{7, 2}, []int{7, 5})
 	}
 	return out
 }
